@@ -1,0 +1,8 @@
+//go:build !verif
+
+package resolver
+
+import rhttp "github.com/hashicorp/go-retryablehttp"
+
+// verifClientHook is a no-op unless built with -tags verif (see verif_export.go).
+func verifClientHook(*rhttp.Client) {}
